@@ -543,6 +543,10 @@ func waitFor(d time.Duration, cond func() bool) bool {
 
 const waitLimit = 40 * time.Second
 
+// lagLimit: how long a live follower may take to show a region it was sent before it is reported as lagging (a
+// loaded machine has stalled a follower for more than 5 s)
+const lagLimit = 20 * time.Second
+
 // expectedNext simulates the follower's index bookkeeping over the messages (ResetWithIndex on a
 // mismatch, one Record per region).
 func expectedNext(cur uint64, ms []*pdpb.SyncRegionResponse, fails func(uint64) bool) uint64 {
@@ -785,7 +789,7 @@ func (w *world) exec(op string) string {
 					id := r.GetID()
 					done = func() bool { return fh.GetNextIndex() == before && cachedAs(fo, id, want) }
 				}
-				if !waitFor(5*time.Second, done) {
+				if !waitFor(lagLimit, done) {
 					ms, ns := l.peekSent(fo.name)
 					lagging += fmt.Sprintf(" lagging-%d=%d bound-%d=%v streams-%d=%d sent-%d=%d", i, fh.GetNextIndex(),
 						i, l.sy.VerifHasStream(fo.name), i, ns, i, len(ms))
@@ -902,7 +906,7 @@ func (w *world) exec(op string) string {
 				continue
 			}
 			oh := o.sy.VerifHistory()
-			if !waitFor(5*time.Second, func() bool { return oh.GetNextIndex() == before+n && recordedAs(oh, before+n-1, lastAccepted) }) {
+			if !waitFor(lagLimit, func() bool { return oh.GetNextIndex() == before+n && recordedAs(oh, before+n-1, lastAccepted) }) {
 				tail = fmt.Sprintf(" timeout-follower-%d", i)
 			}
 		}
@@ -981,7 +985,7 @@ func (w *world) exec(op string) string {
 			tail = fmt.Sprintf(" timeout-apply streams=%d", streams1-streams0)
 		}
 		ms := l.takeSent(fo.name)
-		if tail == "" && !waitFor(5*time.Second, func() bool { return lastApplied(fo, ms) }) {
+		if tail == "" && !waitFor(lagLimit, func() bool { return lastApplied(fo, ms) }) {
 			tail = " last-region-not-applied"
 		}
 		return fmt.Sprintf("req=%d msgs=%s fnext=%d%s", start, fmtMsgs(ms), fh.GetNextIndex(), tail)
